@@ -148,6 +148,7 @@ impl Pair {
             if let Some(p) = &st.panic {
                 return Err(fail("C01.peer_error", format!("panic/{}", if client { "client" } else { "server" }), format!("the {} panicked: {p}", if client { "client" } else { "server" })));
             }
+            check_wire("C01", &st, cfg.idw)?;
             let is_recv = matches!(st.call, Call::Recv { .. });
             if is_recv && st.has_error() {
                 return Err(fail(
@@ -545,7 +546,7 @@ pub fn run_case(c: &PairCase, st: &mut Stats) -> R {
 pub fn cfg_strategy() -> BoxedStrategy<PairCfg> {
     let rm = || prop_oneof![2 => Just(None), 2 => Just(Some(1u16)), 1 => Just(Some(2u16)), 1 => Just(Some(65535u16))];
     let tam = || prop_oneof![2 => Just(None), 1 => Just(Some(0u16)), 2 => Just(Some(2u16)), 1 => Just(Some(5u16))];
-    let mps = || prop_oneof![3 => Just(None), 1 => Just(Some(64u32)), 1 => Just(Some(200u32))];
+    let mps = || prop_oneof![3 => Just(None), 1 => Just(Some(64u32)), 1 => Just(Some(200u32)), 2 => (14u32..30).prop_map(Some)];
     (
         (crate::gen::version(), prop_oneof![4 => Just(2usize), 1 => Just(4usize)]),
         (rm(), rm(), tam(), tam(), mps(), mps()),
